@@ -257,9 +257,14 @@ pub struct Item {
     pub nofile: Option<u64>,
     /// the caller has no descriptor 0 (a daemon that closed stdin): the library's first open returns 0
     pub no_stdin: bool,
+    /// attacker alphabet restricted to {move a walked directory out, move it back, plant a never-inside look-alike inside it}
+    pub root_move: bool,
+    /// before the operation the caller worked on ANOTHER root (the look-alike sibling) that had the same descriptor number,
+    /// with the same paths: whatever the library remembers between calls must not be keyed by descriptor numbers
+    pub prior_root: bool,
 }
 
-fn item(scen: Scenario, plan: Plan, max_exec: u64) -> Item { Item { scen, plan, warm: true, mount_api: 0, max_exec, bundle: vec![], others: vec![], proc_opts: None, unpriv: false, userns: false, thread_decoy: None, fd_slack: None, scripted: None, nofile: None, no_stdin: false } }
+fn item(scen: Scenario, plan: Plan, max_exec: u64) -> Item { Item { scen, plan, warm: true, mount_api: 0, max_exec, bundle: vec![], others: vec![], proc_opts: None, unpriv: false, userns: false, thread_decoy: None, fd_slack: None, scripted: None, nofile: None, no_stdin: false, root_move: false, prior_root: false } }
 
 /// Argument spellings for the input sweep of mutating operations (C03/C05/C11).
 pub fn sweep_paths() -> Vec<&'static str> {
@@ -376,7 +381,7 @@ pub fn items(prop: &str, tier: &str) -> Vec<Item> {
     let bundle = |name: &str, scens: Vec<Scenario>, size: usize, warm: bool, mount_api: u8, out: &mut Vec<Item>| {
         for (i, ch) in scens.chunks(size).enumerate() {
             let s0 = Scenario { name: format!("{}#{}", name, i), backend: ch[0].backend.clone(), op: ch[0].op.clone(), path: String::new() };
-            out.push(Item { scen: s0, plan: Plan::Trace, warm, mount_api, max_exec: 1, bundle: ch.to_vec(), others: vec![], proc_opts: None, unpriv: false, userns: false, thread_decoy: None, fd_slack: None, scripted: None, nofile: None, no_stdin: false });
+            out.push(Item { scen: s0, plan: Plan::Trace, warm, mount_api, max_exec: 1, bundle: ch.to_vec(), others: vec![], proc_opts: None, unpriv: false, userns: false, thread_decoy: None, fd_slack: None, scripted: None, nofile: None, no_stdin: false, root_move: false, prior_root: false });
         }
     };
     match prop {
@@ -394,6 +399,24 @@ pub fn items(prop: &str, tier: &str) -> Vec<Item> {
                         v.push(it);
                     }
                 }
+            }
+            // a walked directory moved out of the root AND an entry inside it replaced by a never-inside look-alike: two mutations
+            // with the small alphabet {move out, move back, plant} on the walks that continue downwards (what the verification at
+            // the end of a walk is for)
+            for (p, opn, fl) in [("a/b/lnk", "resolve_nofollow", 0), ("a/b/lnk", "readlink", 0), ("a/b/lnk", "open_subpath", O_PATH | O_NOFOLLOW), ("a/b/c/d", "resolve", 0), ("a/b/c/d", "open_subpath", O_RDONLY | O_DIRECTORY), ("e/f", "open_subpath", O_RDONLY)] {
+                for b in if th { vec!["E", "K"] } else { vec!["E"] } {
+                    let mut op = Op::new(opn).root(ROOT_IN).path(p);
+                    if opn == "open_subpath" { op = op.flags(fl); }
+                    let mut it = item(Scenario { name: format!("moved+planted:{}/{}", b, op.brief()), backend: b.into(), op, path: p.into() }, Plan::Attack { bound: if th { 3 } else { 2 }, full: false }, if th { 100_000 } else { 4_000 });
+                    it.root_move = true; // alphabet selector: moves and plants only
+                    v.push(it);
+                }
+            }
+            // the caller worked on another root with the same descriptor number and the same paths just before
+            {
+                let n0 = v.len();
+                bundle("after-other-root", lookup_scenarios(th), 40, true, 0, &mut v);
+                for it in v[n0..].iter_mut() { it.prior_root = true; }
             }
             // three (one walk: four) mutations per execution with the directory-swapping core, on every walk of the emulated resolver
             if th {
@@ -417,6 +440,13 @@ pub fn items(prop: &str, tier: &str) -> Vec<Item> {
                 }
             }
             bundle("sweep-rust", sweep_scenarios(th, false), 40, true, 0, &mut v);
+            // the caller worked on another root with the same descriptor number and the same paths just before
+            {
+                let n0 = v.len();
+                bundle("after-other-root", mutating_scenarios(th), 40, true, 0, &mut v);
+                if th { bundle("after-other-root-sweep", sweep_scenarios(false, false).into_iter().step_by(3).collect(), 40, true, 0, &mut v); }
+                for it in v[n0..].iter_mut() { it.prior_root = true; }
+            }
             if th { bundle("sweep-c", sweep_scenarios(th, true), 40, true, 0, &mut v); }
         }
         "C05" => {
@@ -592,7 +622,7 @@ pub fn items(prop: &str, tier: &str) -> Vec<Item> {
                     }
                 }
                 let s0 = scs[0].clone();
-                v.push(Item { scen: s0, plan: Plan::Trace, warm: true, mount_api: *mapi, max_exec: 1, bundle: scs, others: vec![], proc_opts: opts.map(|s| s.to_string()), unpriv: *unpriv, userns: *who == 2, thread_decoy: None, fd_slack: None, scripted: None, nofile: Some(256), no_stdin: false });
+                v.push(Item { scen: s0, plan: Plan::Trace, warm: true, mount_api: *mapi, max_exec: 1, bundle: scs, others: vec![], proc_opts: opts.map(|s| s.to_string()), unpriv: *unpriv, userns: *who == 2, thread_decoy: None, fd_slack: None, scripted: None, nofile: Some(256), no_stdin: false, root_move: false, prior_root: false });
             }
             // environment answers of the handle-construction protocol: every single (thorough: every pair of) deviating answer(s)
             let names: Vec<String> = ["fsopen", "fsconfig", "fsmount", "open_tree", "openat", "faccessat2"].iter().map(|s| s.to_string()).collect();
@@ -712,6 +742,25 @@ fn spec_for(it: &Item, scen: &Scenario) -> OneShot {
     let mut os = oneshot(bk, scen.op.clone(), it.warm);
     if uid != 0 { os.setup.uid = uid; os.setup.gid = uid; os.setup.keep_dumpable = true; os.setup.umask = Some(0); }
     os.warmup.extend(handle_warmup(&scen.op));
+    if it.prior_root {
+        // drop the root (its descriptor number becomes free), open the look-alike sibling as a Root (it gets that number), use the
+        // same paths there without changing anything, drop it again: the operation then re-opens the real root on that number
+        let sib = format!("{}/sibling", PARENT_IN);
+        os.warmup.push(Op::new("drop_root").root(ROOT_IN));
+        os.warmup.push(Op::new("open_root_key").root(&sib));
+        for p in [scen.op.path.clone(), scen.op.path2.clone()].into_iter().flatten() {
+            let parent = match p.trim_end_matches('/').rfind('/') { Some(i) => p[..i].to_string(), None => ".".to_string() };
+            os.warmup.push(Op::new("resolve").root(&sib).path(&p).rflags(scen.op.rflags.unwrap_or(0)));
+            os.warmup.push(Op::new("resolve_nofollow").root(&sib).path(&p).rflags(scen.op.rflags.unwrap_or(0)));
+            os.warmup.push(Op::new("open_subpath").root(&sib).path(&p).flags(O_PATH).rflags(scen.op.rflags.unwrap_or(0)));
+            os.warmup.push(Op::new("readlink").root(&sib).path(&p).rflags(scen.op.rflags.unwrap_or(0)));
+            os.warmup.push(Op::new("remove_file").root(&sib).path(&format!("{}/no-such-entry-prior", parent)).rflags(scen.op.rflags.unwrap_or(0)));
+            os.warmup.push(Op::new("remove_dir").root(&sib).path(&format!("{}/no-such-entry-prior", parent)).rflags(scen.op.rflags.unwrap_or(0)));
+            os.warmup.push(Op::new("rename").root(&sib).path(&format!("{}/no-such-entry-prior", parent)).path2(&format!("{}/no-such-entry-prior2", parent)).flags(0).rflags(scen.op.rflags.unwrap_or(0)));
+        }
+        os.warmup.push(Op::new("drop_root").root(&sib));
+        os.warmup.push(Op::new("open_root_key").root(ROOT_IN));
+    }
     if it.no_stdin { os.warmup.push(Op::new("close_stdin")); }
     if let Some(k) = it.fd_slack { os.warmup.push(Op::new("limit_fds").num(k)); }
     if it.userns { os.setup.userns = true; }
@@ -1049,6 +1098,7 @@ pub fn run_item(prop: &str, tier: &str, idx: usize, only: Option<&Value>) -> MRe
         let w = fresh_world()?;
         let mode = match &it.plan {
             Plan::Attack { full, .. } if prop == "C06" => Mode::Attack(mount_mutations(*full)),
+            Plan::Attack { .. } if it.root_move => Mode::Attack(mutations_for(&scen.path, false).into_iter().filter(|m| m.name.starts_with("move(") || m.name.starts_with("plant(")).collect()),
             Plan::Attack { full, bound } => {
                 let mut m = mutations_for(&scen.path, *full);
                 // bound >= 3: the directory-swapping core only (one walked directory exchanged for an escaping link / an outside
